@@ -62,6 +62,11 @@ def run(ctx):
             ctx.evaluations += 1
             tag = f"{'utc' if r['utc'] else 'local'}"
             rep = dict(tz=z, utc=r["utc"], instant=r.get("t"), record=r)
+            if "device_stamp" in r:
+                if r.get("missing") or not (r["want_lo"] <= r["raw_wrt"] <= r["want_hi"]):
+                    ctx.violation(f"TZ={z} utc={r['utc']}: the modification time of {r['device_stamp']!r} ON THE DEVICE after the stamping operation is "
+                                  f"{r.get('raw_wrt')}, the wall clock was {r.get('want_lo')} .. {r.get('want_hi')}", f"stamp-not-recorded:{tag}", rep)
+                continue
             if "stamp" in r:
                 lo, hi = r["t0"] - 2.01, r["t1"] + 0.01
                 if not (lo <= r["created"] <= hi and lo <= r["modified"] <= hi):
